@@ -1037,8 +1037,7 @@ Ltac at_point H0 e0 :=
   end;
   unfold H_UNSTAKE, H_XFER, H_WRAP in *;
   repeat match goal with
-  | H : context [?a =? ?b] |- _ =>
-      first [ is_var a | is_var b ]; let E := fresh "E" in destruct (a =? b) eqn:E
+  | H : context [if ?b then _ else _] |- _ => let E := fresh "E" in destruct b eqn:E
   end; zb.
 
 Lemma lpt_lock_tokens l h e a now :
@@ -1070,36 +1069,36 @@ Proof.
   - unfold ep_lock in H. inv_ok H. esc_user_op s.
   - (* Extend *) unfold ep_extend in H. inv_ok H. esc_user_op s.
   - unfold ep_extend in H. inv_ok H. esc_user_op s.
-  - (* Merge *) unfold ep_merge in H. destruct ps as [|[e0 a0] t]; [inv_ok H|]. inv_ok H. esc_user_op s.
-  - unfold ep_merge in H. destruct ps as [|[e0 a0] t]; [inv_ok H|]. inv_ok H. esc_user_op s.
+  - (* Merge *) unfold ep_merge in H. destruct ps as [|[pe pa] pt]; [inv_ok H|]. inv_ok H. esc_user_op s.
+  - unfold ep_merge in H. destruct ps as [|[pe pa] pt]; [inv_ok H|]. inv_ok H. esc_user_op s.
   - (* Reduce *) unfold ep_reduce in H. inv_ok H. esc_user_op s.
   - (* Unlock *) unfold ep_unlock in H. inv_ok H. esc_user_op s.
   - (* UnlockEarly *) unfold ep_unlock_early in H. inv_ok H.
-    constructor; unfold unbonding, in_transfer, wrapped_supply; proj; try (apply (esc_keys _ I)); intros e0.
-    + rewrite usum_app. simpl. rewrite <- (esc_unb _ I e0). lpt_facts. at_point H_UNSTAKE e0; lia.
-    + rewrite <- (esc_xf _ I e0). lpt_facts. at_point H_XFER e0; lia.
-    + rewrite <- (esc_wrap _ I e0). lpt_facts. at_point H_WRAP e0; lia.
+    constructor; unfold unbonding, in_transfer, wrapped_supply; proj; try (apply (esc_keys _ I)); intros q.
+    + rewrite usum_app. simpl. rewrite <- (esc_unb _ I q). lpt_facts. at_point H_UNSTAKE q; lia.
+    + rewrite <- (esc_xf _ I q). lpt_facts. at_point H_XFER q; lia.
+    + rewrite <- (esc_wrap _ I q). lpt_facts. at_point H_WRAP q; lia.
   - (* Claim *) unfold ep_claim in H.
     pose proof (fun e => claim_scan_split (s_unb s) e c (s_now s) (Z.to_nat MAX_CLAIM_UNLOCKED_TOKENS) false) as Sp.
     destruct (claim_scan (s_unb s) c (s_now s) (Z.to_nat MAX_CLAIM_UNLOCKED_TOKENS) false) as [kept got].
     simpl in Sp. inv_ok H.
     change (map (fun ub => (ub_e ub, ub_locked ub)) got) with (map ub_pay got) in *.
-    constructor; unfold unbonding, in_transfer, wrapped_supply; proj; try (apply (esc_keys _ I)); intros e0.
-    + pose proof (esc_unb _ I e0) as U. unfold unbonding in U. rewrite (Sp e0) in U. lpt_facts. at_point H_UNSTAKE e0; lia.
-    + rewrite <- (esc_xf _ I e0). lpt_facts. at_point H_XFER e0; lia.
-    + rewrite <- (esc_wrap _ I e0). lpt_facts. at_point H_WRAP e0; lia.
+    constructor; unfold unbonding, in_transfer, wrapped_supply; proj; try (apply (esc_keys _ I)); intros q.
+    + pose proof (esc_unb _ I q) as U. unfold unbonding in U. rewrite (Sp q) in U. lpt_facts. at_point H_UNSTAKE q; lia.
+    + rewrite <- (esc_xf _ I q). lpt_facts. at_point H_XFER q; lia.
+    + rewrite <- (esc_wrap _ I q). lpt_facts. at_point H_WRAP q; lia.
   - (* CancelUnbond *) unfold ep_cancel_unbond in H. inv_ok H.
     change (map (fun ub => (ub_e ub, ub_locked ub)) (queue_of (s_unb s) c)) with (map ub_pay (queue_of (s_unb s) c)) in *.
-    constructor; unfold unbonding, in_transfer, wrapped_supply; proj; try (apply (esc_keys _ I)); intros e0.
-    + pose proof (esc_unb _ I e0) as U. unfold unbonding in U. rewrite (queue_split (s_unb s) c e0) in U.
-      lpt_facts. at_point H_UNSTAKE e0; lia.
-    + rewrite <- (esc_xf _ I e0). lpt_facts. at_point H_XFER e0; lia.
-    + rewrite <- (esc_wrap _ I e0). lpt_facts. at_point H_WRAP e0; lia.
+    constructor; unfold unbonding, in_transfer, wrapped_supply; proj; try (apply (esc_keys _ I)); intros q.
+    + pose proof (esc_unb _ I q) as U. unfold unbonding in U. rewrite (queue_split (s_unb s) c q) in U.
+      lpt_facts. at_point H_UNSTAKE q; lia.
+    + rewrite <- (esc_xf _ I q). lpt_facts. at_point H_XFER q; lia.
+    + rewrite <- (esc_wrap _ I q). lpt_facts. at_point H_WRAP q; lia.
   - (* LockFunds *) unfold ep_lock_funds in H. inv_ok H.
     constructor; unfold unbonding, in_transfer, wrapped_supply; proj.
-    + intros e0. rewrite <- (esc_unb _ I e0). lpt_facts. at_point H_UNSTAKE e0; lia.
-    + intros e0. rewrite xsum_app. simpl. rewrite <- (esc_xf _ I e0). lpt_facts. at_point H_XFER e0; lia.
-    + intros e0. rewrite <- (esc_wrap _ I e0). lpt_facts. at_point H_WRAP e0; lia.
+    + intros q. rewrite <- (esc_unb _ I q). lpt_facts. at_point H_UNSTAKE q; lia.
+    + intros q. rewrite xsum_app. simpl. rewrite <- (esc_xf _ I q). lpt_facts. at_point H_XFER q; lia.
+    + intros q. rewrite <- (esc_wrap _ I q). lpt_facts. at_point H_WRAP q; lia.
     + apply nodup_map_snoc; [apply (esc_keys _ I)|]. apply find_xf_none. exact E1.
   - (* Withdraw *) unfold ep_withdraw in H.
     destruct (negb (on_cooldown s (aget (s_rlast s) receiver))); [|discriminate].
@@ -1107,10 +1106,10 @@ Proof.
     pose proof (fun e => xfer_remove _ _ _ _ e Hf (esc_keys _ I)) as Sp.
     inv_ok H.
     constructor; unfold unbonding, in_transfer, wrapped_supply; proj.
-    + intros e0. rewrite <- (esc_unb _ I e0). lpt_facts. at_point H_UNSTAKE e0; lia.
-    + intros e0. pose proof (esc_xf _ I e0) as U. unfold in_transfer in U. rewrite (Sp e0) in U.
-      lpt_facts. at_point H_XFER e0; lia.
-    + intros e0. rewrite <- (esc_wrap _ I e0). lpt_facts. at_point H_WRAP e0; lia.
+    + intros q. rewrite <- (esc_unb _ I q). lpt_facts. at_point H_UNSTAKE q; lia.
+    + intros q. pose proof (esc_xf _ I q) as U. unfold in_transfer in U. rewrite (Sp q) in U.
+      lpt_facts. at_point H_XFER q; lia.
+    + intros q. rewrite <- (esc_wrap _ I q). lpt_facts. at_point H_WRAP q; lia.
     + apply nodup_map_filter. apply (esc_keys _ I).
   - (* CancelTransfer *) unfold ep_cancel_transfer in H.
     destruct (c =? ADMIN); [|discriminate].
@@ -1118,27 +1117,27 @@ Proof.
     pose proof (fun e => xfer_remove _ _ _ _ e Hf (esc_keys _ I)) as Sp.
     inv_ok H.
     constructor; unfold unbonding, in_transfer, wrapped_supply; proj.
-    + intros e0. rewrite <- (esc_unb _ I e0). lpt_facts. at_point H_UNSTAKE e0; lia.
-    + intros e0. pose proof (esc_xf _ I e0) as U. unfold in_transfer in U. rewrite (Sp e0) in U.
-      lpt_facts. at_point H_XFER e0; lia.
-    + intros e0. rewrite <- (esc_wrap _ I e0). lpt_facts. at_point H_WRAP e0; lia.
+    + intros q. rewrite <- (esc_unb _ I q). lpt_facts. at_point H_UNSTAKE q; lia.
+    + intros q. pose proof (esc_xf _ I q) as U. unfold in_transfer in U. rewrite (Sp q) in U.
+      lpt_facts. at_point H_XFER q; lia.
+    + intros q. rewrite <- (esc_wrap _ I q). lpt_facts. at_point H_WRAP q; lia.
     + apply nodup_map_filter. apply (esc_keys _ I).
   - (* Wrap *) unfold ep_wrap in H. inv_ok H.
-    constructor; unfold unbonding, in_transfer, wrapped_supply; proj; try (apply (esc_keys _ I)); intros e0.
-    + rewrite <- (esc_unb _ I e0). lpt_facts. at_point H_UNSTAKE e0; lia.
-    + rewrite <- (esc_xf _ I e0). lpt_facts. at_point H_XFER e0; lia.
-    + simpl. rewrite <- (esc_wrap _ I e0). lpt_facts. at_point H_WRAP e0; lia.
+    constructor; unfold unbonding, in_transfer, wrapped_supply; proj; try (apply (esc_keys _ I)); intros q.
+    + rewrite <- (esc_unb _ I q). lpt_facts. at_point H_UNSTAKE q; lia.
+    + rewrite <- (esc_xf _ I q). lpt_facts. at_point H_XFER q; lia.
+    + simpl. rewrite <- (esc_wrap _ I q). lpt_facts. at_point H_WRAP q; lia.
   - (* Unwrap *) unfold ep_unwrap in H. inv_ok H.
-    pose proof (fun e0 => lsum_debit _ _ _ _ _ e0 Hb) as W. clear Hb.
-    constructor; unfold unbonding, in_transfer, wrapped_supply; proj; try (apply (esc_keys _ I)); intros e0.
-    + rewrite <- (esc_unb _ I e0). lpt_facts. at_point H_UNSTAKE e0; lia.
-    + rewrite <- (esc_xf _ I e0). lpt_facts. at_point H_XFER e0; lia.
-    + rewrite (W e0). rewrite <- (esc_wrap _ I e0). lpt_facts. at_point H_WRAP e0; lia.
+    pose proof (fun q => lsum_debit _ _ _ _ _ q Hb) as W. clear Hb.
+    constructor; unfold unbonding, in_transfer, wrapped_supply; proj; try (apply (esc_keys _ I)); intros q.
+    + rewrite <- (esc_unb _ I q). lpt_facts. at_point H_UNSTAKE q; lia.
+    + rewrite <- (esc_xf _ I q). lpt_facts. at_point H_XFER q; lia.
+    + rewrite (W q). rewrite <- (esc_wrap _ I q). lpt_facts. at_point H_WRAP q; lia.
   - (* WTransfer *) unfold ep_wtransfer in H. inv_ok H.
-    pose proof (fun e0 => lsum_debit _ _ _ _ _ e0 Hb) as W. clear Hb.
-    constructor; unfold unbonding, in_transfer, wrapped_supply; proj; try (apply (esc_keys _ I)); intros e0;
+    pose proof (fun q => lsum_debit _ _ _ _ _ q Hb) as W. clear Hb.
+    constructor; unfold unbonding, in_transfer, wrapped_supply; proj; try (apply (esc_keys _ I)); intros q;
       try (apply (esc_unb _ I)); try (apply (esc_xf _ I)).
-    simpl. rewrite (W e0). rewrite (esc_wrap _ I e0). unfold wrapped_supply. destruct (e =? e0); lia.
+    simpl. rewrite (W q). rewrite (esc_wrap _ I q). unfold wrapped_supply. destruct (e =? q); lia.
   - discriminate.
   - (* Advance *) unfold ep_advance in H. inv_ok H. eapply (esc_frame s); try reflexivity; auto.
 Qed.
